@@ -39,8 +39,8 @@ def _parse(stdout):
     return None
 
 
-def run_worker(mod_name, o, tier, seed, twin, deadline):
-    wall = o.timeout * 1.5 + 30
+def run_worker(mod_name, o, tier, seed, twin, deadline, cap=None):
+    wall = (min(o.timeout, cap) if cap else o.timeout) * 1.5 + 30
     if twin:
         wall = min(wall, 90)
     remaining = deadline - time.time()
@@ -133,18 +133,27 @@ def _run_property(pid, tier='quick', seed=0, only=None, jobs=None):
     deadline = t_start + budget
     jobs = jobs or int(os.environ.get('VERIF_JOBS', os.cpu_count() or 4))
 
-    tasks = []
-    for o in obs:
-        tasks.append((o, False))
-        if o.twin and o.engine == 'crosshair':
-            tasks.append((o, True))
-    # longest first
-    tasks.sort(key=lambda t: (-t[0].timeout if not t[1] else 0))
+    # An obligation and its reachability twin are one task (the twin - at most 30 s - runs right after a CONFIRMED main, even
+    # when the wall budget has just run out: a verdict is never left half-decided).  Short obligations first, and no single
+    # obligation may use more than a third of the property's wall budget (VERIF_TIMEOUT_CAP, honoured by the workers).
+    cap = budget / 3.0
+    os.environ['VERIF_TIMEOUT_CAP'] = str(cap)
+
+    def run_pair(o):
+        r = run_worker(mod_name, o, tier, seed, False, deadline, cap)
+        tw = None
+        if o.twin and o.engine == 'crosshair' and r.get('status') == 'CONFIRMED':
+            tw = run_worker(mod_name, o, tier, seed, True, max(deadline, time.time() + 100), cap)
+        return r, tw
+    order = sorted(obs, key=lambda o: min(o.timeout, cap))
     results = {}
     with ThreadPoolExecutor(max_workers=jobs) as ex:
-        futs = {ex.submit(run_worker, mod_name, o, tier, seed, twin, deadline): (o, twin) for o, twin in tasks}
-        for fut, (o, twin) in futs.items():
-            results[(o.id, twin)] = fut.result()
+        futs = {ex.submit(run_pair, o): o for o in order}
+        for fut, o in futs.items():
+            r, tw = fut.result()
+            results[(o.id, False)] = r
+            if tw is not None:
+                results[(o.id, True)] = tw
 
     violations, harness_errors, known_lines = [], [], []
     discharged = inconclusive = refuted_known = 0
